@@ -496,6 +496,11 @@ def c15_r1(ctx, f, ctor_types=None):
                 sites += 1
         n += sites
         ctx.analysed(fn, sites)
+        if not ctors:
+            # no constructor call in the writer (modules come from a constant table or a helper): nothing to read here
+            ctx.abstain(rid, "%s constructs no module through Module::<label>() calls: its labels are decided by the blank-symbol evaluation only" % fn.path,
+                        where_fn(fn))
+            continue
         ctx.check(rid, ctors == want, fn.path + "/label", where_fn(fn), fn.path, "constructors used",
                   "this writer labels its modules with a different (or a second) region type: shape callbacks and the "
                   "data/function distinction would see a wrong map", expected=sorted(want), found=sorted(ctors),
